@@ -27,6 +27,7 @@ type SpecEnv struct {
 	pkg         *types.Package
 	allocBefore *Term
 	paramsFirst bool // ensures: parameter names mean entry values
+	params      map[string]SVal
 }
 
 func (env *SpecEnv) st() *State {
@@ -474,16 +475,67 @@ func (env *SpecEnv) call(n *ECall) SVal {
 			ts = append(ts, env.eval(a).V.flat()...)
 		}
 		srt := SInt
-		if strings.HasSuffix(kx.V, ".String") {
+		fkey := kx.V
+		switch {
+		case strings.HasSuffix(fkey, ":Seq"):
+			srt, fkey = SSeq, strings.TrimSuffix(fkey, ":Seq")
+		case strings.HasSuffix(fkey, ":Bool"):
+			srt, fkey = SBool, strings.TrimSuffix(fkey, ":Bool")
+		case strings.HasSuffix(fkey, ".String"):
 			srt = SSeq
 		}
-		return SVal{V: scalar(App("fn$"+kx.V, srt, ts...)), G: map[string]string{SInt: "Ref", SSeq: "Seq"}[srt]}
+		return SVal{V: scalar(App("fn$"+fkey, srt, ts...)), G: map[string]string{SInt: "Ref", SSeq: "Seq", SBool: "bool"}[srt]}
+	case "u64", "i64", "i32":
+		v := env.eval(n.Args[0])
+		k := map[string]types.BasicKind{"u64": types.Uint64, "i64": types.Int64, "i32": types.Int32}[n.Fn]
+		return SVal{V: v.V, T: types.Typ[k]}
+	case "str":
+		v := env.eval(n.Args[0])
+		return SVal{V: v.V, T: types.Typ[types.String]}
+	case "sprintf":
+		// the term fmt.Sprintf(format, args...) evaluates to in the code (uninterpreted function of format and boxed arguments)
+		f := env.eval(n.Args[0])
+		parts := []*Term{f.V.T}
+		for _, a := range n.Args[1:] {
+			v := env.eval(a)
+			t := v.T
+			if t == nil {
+				switch v.G {
+				case "Seq":
+					t = types.Typ[types.String]
+				default:
+					unsupp("sprintf argument %s needs a Go type: wrap it in u64()/i64()/i32()/str()", a)
+				}
+			}
+			switch kindOf(t) {
+			case kSeq:
+				parts = append(parts, IntLit(typeID(t)), App("box_seq", SInt, v.V.T))
+			case kInt:
+				parts = append(parts, IntLit(typeID(t)), App("box_int", SInt, v.V.T))
+			default:
+				unsupp("sprintf argument of type %s", t)
+			}
+		}
+		return SVal{V: scalar(App("sprintf$"+itoa(len(parts)), SSeq, parts...)), G: "Seq"}
+	case "param":
+		// param(name): a parameter shadowed by a result name (e.g. a parameter called "result")
+		id, ok := n.Args[0].(*EIdent)
+		if !ok {
+			unsupp("param(name)")
+		}
+		if v, ok := env.params[id.Name]; ok {
+			return v
+		}
+		unsupp("no parameter %s", id.Name)
 	case "deref":
 		// deref(p): the value a pointer to a non-struct points to
 		v := env.eval(n.Args[0])
 		pt, ok := v.T.Underlying().(*types.Pointer)
 		if !ok {
 			unsupp("deref of non-pointer")
+		}
+		if v.V.P != nil && v.V.T == nil {
+			return SVal{V: env.st().load(v.V.P), T: pt.Elem()}
 		}
 		return SVal{V: env.st().load(derefPlace(v.V.T, v.T)), T: pt.Elem()}
 	case "ival":
@@ -601,6 +653,9 @@ func (env *SpecEnv) isNil(v SVal) *Term {
 			return Eq(v.V.T, IntLit(0))
 		}
 		unsupp("nil comparison on ghost %s", v.G)
+	}
+	if v.V.P != nil && v.V.T == nil && v.V.Fs == nil {
+		return False() // the address of a variable or field is never nil
 	}
 	switch kindOf(v.T) {
 	case kRef:
